@@ -1540,7 +1540,8 @@ impl<'l> CelCompiler<'l> {
         let r = i.run_raw(&bc, true);
 
         match r {
-            Ok(v) if !Self::holds_error(&v) => {
+            // a variable that is merely unbound now may be bound when the program runs
+            Ok(v) if !i.run_dependent() && !Self::holds_error(&v) => {
                 CompiledProg::new(NodeValue::ConstExpr(v), details)
             }
             _ => CompiledProg::new(NodeValue::Bytecode(bc.into()), details),
